@@ -23,6 +23,7 @@ pub struct Weights {
     pub clear_slots: u32,
     pub downgrade: u32,
     pub clone_weak: u32,
+    pub weak_clone_from: u32,
     pub drop_weak: u32,
     pub upgrade: u32,
     pub store_weak: u32,
@@ -53,6 +54,7 @@ impl Weights {
             clear_slots: 2,
             downgrade: 5,
             clone_weak: 2,
+            weak_clone_from: 2,
             drop_weak: 3,
             upgrade: 4,
             store_weak: 3,
@@ -125,6 +127,7 @@ fn plain_op(wt: &Weights) -> BoxedStrategy<Op> {
         (wt.clear_slots, (s(), 0u8..3, any::<bool>(), any::<bool>()).prop_map(|(owner, leave, unadopt, keep)| Op::ClearSlots { owner, leave, unadopt, keep }).boxed()),
         (wt.downgrade, s().prop_map(Op::Downgrade).boxed()),
         (wt.clone_weak, s().prop_map(Op::CloneWeak).boxed()),
+        (wt.weak_clone_from, (s(), s()).prop_map(|(dst, src)| Op::WeakCloneFrom { dst, src }).boxed()),
         (wt.drop_weak, s().prop_map(Op::DropWeak).boxed()),
         (wt.upgrade, s().prop_map(Op::Upgrade).boxed()),
         (wt.store_weak, (s(), s()).prop_map(|(owner, w)| Op::StoreWeak { owner, w }).boxed()),
@@ -210,7 +213,7 @@ fn op(g: &GenCfg) -> BoxedStrategy<Op> {
     let wn = g.weights.new;
     let total: u32 = {
         let w = &g.weights;
-        w.new + w.clone + w.clone_from + w.new_uninit_adopted + w.drop + w.drop_closure + w.store + w.adopt_slot + w.unadopt + w.loopback + w.remove + w.strip + w.unique_root + w.clear_slots + w.downgrade + w.clone_weak + w.drop_weak + w.upgrade + w.store_weak + w.remove_weak + w.weak_new + w.probe + w.consume * 17
+        w.new + w.clone + w.clone_from + w.new_uninit_adopted + w.drop + w.drop_closure + w.store + w.adopt_slot + w.unadopt + w.loopback + w.remove + w.strip + w.unique_root + w.clear_slots + w.downgrade + w.clone_weak + w.weak_clone_from + w.drop_weak + w.upgrade + w.store_weak + w.remove_weak + w.weak_new + w.probe + w.consume * 17
     };
     let mut wt = g.weights.clone();
     wt.new = 0;
